@@ -14,12 +14,12 @@ RULE = 'one program = one (configuration, optimisation level) encoding; one eval
 
 def jobs(tier, seed):
     out = []
-    cj = [j for j in [x for x in c01.jobs('quick', seed) if x.get('name') != 'hist'] if not j['cfg']['symnames'] and j['cfg']['pad'] < 0 and not (j['cfg']['ex_group'] == 1 and j['cfg']['ex_nlen'] > 1)]
+    cj = [j for j in [x for x in c01.jobs('quick', seed) if x.get('name') != 'hist'] if not j['cfg']['symnames'] and j['cfg']['pad'] < 0 and not (j['cfg']['ex_group'] == 1 and j['cfg']['ex_nlen'] > 1) and not is_sweep(j)]
     sel = cj[::5] if tier == 'quick' else cj[::2]
     for j in sel: out.append(dict(j, family='api'))
     names = ('zeros1+block3', 'zero_prologue', 'analog_empty', 'sparse_ids', 'labels_fewer', 'events3', 'no_points') if tier == 'quick' else None
     for j in c02.jobs('quick', seed):
-        if names is None or j['name'] in names:
+        if (names is None and not is_sweep(j)) or (names is not None and j['name'] in names):
             j = dict(j); j['cfg'] = {'gens': 1 if tier == 'quick' else 2, 'dump': 1, 'obsfiles': 0}; j['family'] = 'file'
             if tier == 'thorough': j['opts'] = dict(j['opts'], symbolic_meta=False)
             if tier == 'quick': j['opts'] = dict(j['opts'], extras=j['opts'].get('extras', [])[:1], symbolic_meta=False); j['shape'] = dict(j['shape'], F=1)
